@@ -91,7 +91,12 @@ int main(int argc, char **argv) {
   const char *cname = 0, *replay = 0, *outdir = "", *sigfile = 0;
   uint64_t seed = 1; long start = 0, runs = 1; int tier = 0, verbose = 0, dump_plan = 0;
   double max_seconds = 0;
-  struct override ov[32]; int nov = 0;
+  /* identical address-space layout in every process: memory-corruption bugs then replay too */
+  if (!getenv("MVH_NOASLR_DONE")) {
+    setenv("MVH_NOASLR_DONE", "1", 1);
+    if (personality(ADDR_NO_RANDOMIZE) != -1) execv("/proc/self/exe", argv);
+  }
+  struct override ov[48]; int nov = 0;
   for (int i = 1; i < argc; i++) {
     if (!strcmp(argv[i], "--class") && i + 1 < argc) cname = argv[++i];
     else if (!strcmp(argv[i], "--seed") && i + 1 < argc) seed = strtoull(argv[++i], 0, 10);
@@ -105,7 +110,7 @@ int main(int argc, char **argv) {
     else if (!strcmp(argv[i], "--envprobe") && i + 1 < argc) { mvsim_global_init(); return envprobe(atol(argv[++i])); }
     else if (!strcmp(argv[i], "--verbose")) verbose = 1;
     else if (!strcmp(argv[i], "--dump-plan")) dump_plan = 1;
-    else if (!strcmp(argv[i], "--set") && i + 1 < argc && nov < 32) {
+    else if (!strcmp(argv[i], "--set") && i + 1 < argc && nov < 48) {
       char *eq = strchr(argv[++i], '=');
       if (!eq) { fprintf(stderr, "bad --set\n"); return 2; }
       *eq = 0; ov[nov].name = argv[i]; ov[nov].val = atol(eq + 1); nov++;
@@ -117,11 +122,6 @@ int main(int argc, char **argv) {
       }
       return 0;
     } else { fprintf(stderr, "unknown argument %s\n", argv[i]); return 2; }
-  }
-  /* identical address-space layout in every process: memory-corruption bugs then replay too */
-  if (!getenv("MVH_NOASLR_DONE")) {
-    setenv("MVH_NOASLR_DONE", "1", 1);
-    if (personality(ADDR_NO_RANDOMIZE) != -1) execv("/proc/self/exe", argv);
   }
   mvsim_global_init();
   setenv("MYTH_BIND_WORKERS", "0", 1);
